@@ -48,20 +48,20 @@ func (f *Field) mkr(p *Poly, raw *node) *F {
 
 // ---- structure
 
-func (f *Field) Name() string                       { return "symGF(" + f.q.Text(16) + ")" }
-func (f *Field) Order() cardinal.Cardinal           { return cardinal.NewFromBig(f.q) }
-func (f *Field) Characteristic() cardinal.Cardinal  { return cardinal.NewFromBig(f.q) }
-func (f *Field) Contains(e *F) bool                 { return e != nil }
-func (f *Field) ElementSize() int                   { return elemSize }
-func (f *Field) WideElementSize() int               { return 2 * elemSize }
-func (f *Field) BitLen() int                        { return f.q.BitLen() }
-func (f *Field) IsDomain() bool                     { return true }
-func (f *Field) ExtensionDegree() uint              { return 1 }
-func (f *Field) Zero() *F                           { return f.mk(polyConst(big.NewInt(0), f.q)) }
-func (f *Field) One() *F                            { return f.mk(polyConst(big.NewInt(1), f.q)) }
-func (f *Field) OpIdentity() *F                     { return f.Zero() }
-func (f *Field) FromUint64(v uint64) *F             { return f.mk(polyConst(new(big.Int).SetUint64(v), f.q)) }
-func (f *Field) FromBig(v *big.Int) *F              { return f.mk(polyConst(v, f.q)) }
+func (f *Field) Name() string                      { return "symGF(" + f.q.Text(16) + ")" }
+func (f *Field) Order() cardinal.Cardinal          { return cardinal.NewFromBig(f.q) }
+func (f *Field) Characteristic() cardinal.Cardinal { return cardinal.NewFromBig(f.q) }
+func (f *Field) Contains(e *F) bool                { return e != nil }
+func (f *Field) ElementSize() int                  { return elemSize }
+func (f *Field) WideElementSize() int              { return 2 * elemSize }
+func (f *Field) BitLen() int                       { return f.q.BitLen() }
+func (f *Field) IsDomain() bool                    { return true }
+func (f *Field) ExtensionDegree() uint             { return 1 }
+func (f *Field) Zero() *F                          { return f.mk(polyConst(big.NewInt(0), f.q)) }
+func (f *Field) One() *F                           { return f.mk(polyConst(big.NewInt(1), f.q)) }
+func (f *Field) OpIdentity() *F                    { return f.Zero() }
+func (f *Field) FromUint64(v uint64) *F            { return f.mk(polyConst(new(big.Int).SetUint64(v), f.q)) }
+func (f *Field) FromBig(v *big.Int) *F             { return f.mk(polyConst(v, f.q)) }
 func (f *Field) FromCardinal(c cardinal.Cardinal) (*F, error) {
 	return f.mk(polyConst(c.Big(), f.q)), nil
 }
@@ -162,8 +162,8 @@ func pLEof(a, b *Poly) Pred {
 // ---- element
 
 func (e *F) Structure() algebra.Structure[*F] { return e.f }
-func (e *F) Clone() *F                         { return &F{f: e.f, p: e.p, raw: e.raw} }
-func (e *F) Poly() *Poly                       { return e.p }
+func (e *F) Clone() *F                        { return &F{f: e.f, p: e.p, raw: e.raw} }
+func (e *F) Poly() *Poly                      { return e.p }
 
 // IsSymbolic reports whether the element depends on symbolic variables.
 func (e *F) IsSymbolic() bool { return !e.p.isConst() }
@@ -177,18 +177,20 @@ func (e *F) Big() *big.Int {
 	return e.p.constVal()
 }
 
-func (e *F) Add(o *F) *F       { return e.f.mkr(e.p.add(o.p, e.f.q), rawAdd(e.raw, o.raw)) }
-func (e *F) Sub(o *F) *F       { return e.f.mkr(e.p.sub(o.p, e.f.q), rawSub(e.raw, o.raw)) }
-func (e *F) Neg() *F           { return e.f.mkr(e.p.neg(e.f.q), rawNeg(e.raw)) }
-func (e *F) Double() *F        { return e.f.mkr(e.p.scale(big.NewInt(2), e.f.q), rawScale(e.raw, big.NewInt(2))) }
-func (e *F) Mul(o *F) *F       { return e.f.mkr(e.p.mul(o.p, e.f.q), rawMul(e.raw, o.raw)) }
-func (e *F) Square() *F        { return e.Mul(e) }
-func (e *F) Op(o *F) *F        { return e.Add(o) }
-func (e *F) OtherOp(o *F) *F   { return e.Mul(o) }
-func (e *F) OpInv() *F         { return e.Neg() }
-func (e *F) TryNeg() (*F, error)       { return e.Neg(), nil }
-func (e *F) TryOpInv() (*F, error)     { return e.Neg(), nil }
-func (e *F) TrySub(o *F) (*F, error)   { return e.Sub(o), nil }
+func (e *F) Add(o *F) *F { return e.f.mkr(e.p.add(o.p, e.f.q), rawAdd(e.raw, o.raw)) }
+func (e *F) Sub(o *F) *F { return e.f.mkr(e.p.sub(o.p, e.f.q), rawSub(e.raw, o.raw)) }
+func (e *F) Neg() *F     { return e.f.mkr(e.p.neg(e.f.q), rawNeg(e.raw)) }
+func (e *F) Double() *F {
+	return e.f.mkr(e.p.scale(big.NewInt(2), e.f.q), rawScale(e.raw, big.NewInt(2)))
+}
+func (e *F) Mul(o *F) *F             { return e.f.mkr(e.p.mul(o.p, e.f.q), rawMul(e.raw, o.raw)) }
+func (e *F) Square() *F              { return e.Mul(e) }
+func (e *F) Op(o *F) *F              { return e.Add(o) }
+func (e *F) OtherOp(o *F) *F         { return e.Mul(o) }
+func (e *F) OpInv() *F               { return e.Neg() }
+func (e *F) TryNeg() (*F, error)     { return e.Neg(), nil }
+func (e *F) TryOpInv() (*F, error)   { return e.Neg(), nil }
+func (e *F) TrySub(o *F) (*F, error) { return e.Sub(o), nil }
 
 func (e *F) TryInv() (*F, error) {
 	if e.p.isConst() {
@@ -271,8 +273,8 @@ func (e *F) Bytes() []byte {
 	}
 	return e.f.run.intern('F', e.p, elemSize)
 }
-func (e *F) BytesBE() []byte            { return e.Bytes() }
-func (e *F) ComponentsBytes() [][]byte  { return [][]byte{e.Bytes()} }
+func (e *F) BytesBE() []byte             { return e.Bytes() }
+func (e *F) ComponentsBytes() [][]byte   { return [][]byte{e.Bytes()} }
 func (e *F) Cardinal() cardinal.Cardinal { return cardinal.NewFromBig(e.Big()) }
 
 func (e *F) String() string {
@@ -320,6 +322,16 @@ func digestHex(b []byte) string {
 	return fmt.Sprintf("%x/%d", h.Sum(nil), len(b))
 }
 
+// SetSerializationOnly switches off the genericity assumptions of interning. Sound only for
+// harnesses in which element encodings are transported (encode → decode) but never hashed, used as
+// map keys or compared unless the encoded terms are provably equal; such a harness can then
+// quantify over ALL values, including coinciding ones.
+func (r *Run) SetSerializationOnly(on bool) {
+	r.mu.Lock()
+	defer r.mu.Unlock()
+	r.serializationOnly = on
+}
+
 func (r *Run) lookupHandle(kind byte, b []byte) (*Poly, bool) {
 	r.mu.Lock()
 	defer r.mu.Unlock()
@@ -358,7 +370,12 @@ func (r *Run) intern(kind byte, p *Poly, size int) []byte {
 		}
 	}
 	// new handle; record genericity assumptions against all previous terms of the same kind
+	// (not in serialisation-only mode, where encodings are never hashed or compared unless the
+	// terms are provably equal: see SetSerializationOnly)
 	for _, e := range r.interned {
+		if r.serializationOnly {
+			break
+		}
 		if e.kind != kind {
 			continue
 		}
